@@ -154,7 +154,16 @@ func ApplySchedule(s *Scenario) {
 		node.AveragePeriod = s.AvgPeriod
 		node.AverageRequired = s.AvgPeriod / 2
 	}
+	// The mint address of the network is configuration (a package variable) like the activation heights: a
+	// scenario may name a key pair of its own as the mint address, so that the holder of the 2.0.4 supply can
+	// spend from it ("any prior balance of the special addresses", C15). Its name in the keyring stays MINT.
+	node.GlobalMintAddress = defaultMintAddress
+	if typ, ok := s.Keys["MINT"]; ok {
+		node.GlobalMintAddress = deriveKey("MINT", typ).FA.String()
+	}
 }
+
+var defaultMintAddress = node.GlobalMintAddress
 
 // OPRVersion returns the record version miners would write at h under the scenario schedule
 // (used only as a default when the scenario does not say).
